@@ -461,9 +461,9 @@ def r05_2_wrappers(chk, dp):
         ev = dp.ev(q)
         chk.saw(DP, q)
         pos = ev.param_names[1]
-        r = ev.returns[-1].value
+        r = ev.returns.pick(-1).value          # every exit is examined below (directly, or by _blocked_delegation)
         forms = {f"{inner}({c})" for c in casts(pos)}
-        ok = r.key() in forms
+        ok = r.key() in forms and all(x.value is not None and x.value.key() in forms for x in ev.returns)
         if not ok and cls == "StockholderWeight":
             for c in casts(pos):
                 try:
@@ -480,7 +480,7 @@ def r05_2_wrappers(chk, dp):
         if not ok:
             ok = _blocked_delegation(ev, inner, pos, casts(pos))
         chk.ob("R05.2", DP, q, f"the wrapper returns the compiled result for the given points unchanged ({inner}(points))", ok,
-               node=ev.returns[-1].node, fingerprint="forward", expected=f"{inner}({pos}.astype(float32))", found=str(r)[:200])
+               node=ev.returns.pick(-1).node, fingerprint="forward", expected=f"{inner}({pos}.astype(float32))", found=str(r)[:200])
     q = "StockholderWeight.from_arrays"
     ev = dp.ev(q)
     chk.saw(DP, q)
